@@ -117,6 +117,61 @@ def check_offline_discrete(ctx, c):
     return None
 
 
+def check_failed_between(ctx, rng, fixed=None):
+    """An evaluate() that raises (a data-dependent error: sqrt of a negative sample, division by zero) between two evaluations of
+    the same offline object with sub-specifications: the next evaluate() must return what a fresh object returns (nothing of
+    the failed call may survive)."""
+    if fixed is not None:
+        text, n, good1, bad, good2 = fixed["spec"], fixed["n"], fixed["good1"], fixed["bad"], fixed["good2"]
+    else:
+        k = rng.choice([0.5, 1.0, 2.0])
+        sub = rng.choice(["c = (a >= %s)" % k, "c = (once[0,2](a >= %s))" % k, "c = (a + %s)" % k, "c = (historically(a <= %s))" % k])
+        arith = sub.startswith("c = (a +")
+        bad_op = rng.choice(["sqrt", "div"])
+        risky = "(sqrt(b) >= 1.0)" if bad_op == "sqrt" else "((1.0 / b) >= 0.5)"
+        if arith:
+            main = "out = ((c >= 1.0) %s %s)" % (rng.choice(["and", "or"]), risky)
+        else:
+            main = "out = ((c) %s %s)" % (rng.choice(["and", "or", "implies"]), risky)
+        text = sub + ";\n" + main
+        n = rng.randint(2, 6)
+        vals = [-1.0, 0.5, 1.0, 2.0, 3.0]
+        good1 = {"a": [rng.choice(vals) for _ in range(n)], "b": [rng.choice([0.25, 1.0, 4.0]) for _ in range(n)]}
+        good2 = {"a": [rng.choice(vals) for _ in range(n)], "b": [rng.choice([0.25, 1.0, 4.0]) for _ in range(n)]}
+        bad = {"a": [rng.choice([-9.0, 9.0]) for _ in range(n)], "b": [(-4.0 if bad_op == "sqrt" else 0.0) for _ in range(n)]}
+
+    def dset(d):
+        x = {"time": list(range(n))}
+        x.update({v: list(d[v]) for v in d})
+        return x
+
+    def go():
+        spec = impl.make_spec("offd", text, ["a", "b"], extra_decl=["c"], single=True)
+        spec.parse()
+        spec.evaluate(dset(good1))
+        raised = False
+        try:
+            spec.evaluate(dset(bad))
+        except Exception:
+            raised = True
+        r3 = spec.evaluate(dset(good2))
+        fresh = impl.make_spec("offd", text, ["a", "b"], extra_decl=["c"], single=True)
+        fresh.parse()
+        return raised, [p_[1] for p_ in r3], [p_[1] for p_ in fresh.evaluate(dset(good2))]
+    out = impl.guarded(go)
+    rep = {"kind": "failed-between", "spec": text, "n": n, "good1": good1, "bad": bad, "good2": good2, "impl": out}
+    ctx.count("failed-between" + ("" if out[0] != "ok" or out[1][0] else "/did-not-raise"))
+    if out[0] != "ok":
+        return Violation("offline evaluate() raised %r on well-formed data: %s" % (out[1:], text.replace("\n", " ")), rep,
+                         stream="pure/failed-between")
+    raised, got, want = out[1]
+    if not same_vals(got, want):
+        return Violation("after an evaluate() that raised, the same offline object returns %r, a fresh object %r: %s"
+                         % (got, want, text.replace("\n", " ")), rep, stream="pure/failed-between")
+    ctx.nontrivial.add(("failed-between", text, str(good2)))
+    return None
+
+
 def check_offline_dense(ctx, c):
     text = D.spec_text(c["f"])
     kw = {}
@@ -426,6 +481,17 @@ def explore(ctx, rng, count):
                 if len(ctx.violations) >= 3:
                     return
             continue
+        if i_ % 8 == 5:
+            ctx.evaluations += 1
+            ctx.count("kind:failed-between")
+            v = check_failed_between(ctx, rng)
+            if v is None:
+                ctx.traces_validated += 1
+            else:
+                ctx.violations.append(v)
+                if len(ctx.violations) >= 3:
+                    return
+            continue
         if i_ % 8 == 7:
             ctx.evaluations += 1
             ctx.count("kind:period-units")
@@ -462,6 +528,9 @@ def replay(ctx, obj):
     if obj["kind"] == "period-units":
         v = period_units_case(scratch, obj["op"], obj["k"], obj["c0"], obj["period_number"], [float(t) for t in obj["x"]], tuple(obj["order"]))
         return (v is None), (v.what if v else "the two objects do not influence each other")
+    if obj["kind"] == "failed-between":
+        v = check_failed_between(scratch, None, fixed=obj)
+        return (v is None), (v.what if v else "the object behaves like a fresh one after the failed evaluate()")
     if obj["kind"] == "offd":
         c = {"kind": "offd", "f": F.from_proto(obj["formula"]), "n": obj["n"], "data": {k: [float(x) for x in v] for k, v in obj["data"].items()},
              "units": obj.get("units")}
